@@ -1266,6 +1266,16 @@ impl TransactionalMemory {
         Ok(state.latest_slot().transaction_id)
     }
 
+    // The id of the last committed transaction together with its data root, read under a single
+    // lock acquisition so that both belong to the same commit
+    pub(crate) fn get_last_committed_transaction_id_and_data_root(
+        &self,
+    ) -> Result<(TransactionId, Option<BtreeHeader>)> {
+        let state = self.state.lock()?;
+        let slot = state.latest_slot();
+        Ok((slot.transaction_id, slot.user_root))
+    }
+
     pub(crate) fn get_last_durable_transaction_id(&self) -> Result<TransactionId> {
         #[cfg(redb_verif)]
         crate::verif::pause("M.last_durable");
